@@ -31,7 +31,8 @@ import (
 )
 
 type pval struct {
-	kind  string // long ulong float str bytes list tuple
+	kind  string // long ulong float str bytes list tuple raw (a native Go integer, only as an item of a list or tuple)
+	gtype string // raw: the Go type
 	i     int64
 	u     uint64
 	bits  uint64
@@ -80,10 +81,11 @@ func (g *gen) bytesv() *pval {
 }
 
 func (g *gen) value(depth int) *pval {
-	k := g.n(0, 8, "vkind")
+	k := g.n(0, 10, "vkind")
 	if depth >= 2 && k >= 6 {
 		k %= 6
 	}
+	allRaw := k >= 9 // a list or tuple made of native Go integers only
 	switch k {
 	case 0, 1:
 		return g.long()
@@ -97,7 +99,22 @@ func (g *gen) value(depth int) *pval {
 		return g.bytesv()
 	default:
 		v := &pval{kind: []string{"list", "tuple"}[g.n(0, 1, "seq")]}
-		for i, n := 0, g.n(0, 4, "nitems"); i < n; i++ {
+		for i, n := 0, g.n(0, 4, "nitems"); i < n || (allRaw && i < 3); i++ {
+			if allRaw || g.n(0, 2, "rawitem") == 0 {
+				// a native Go integer converted by the compiler (every width, both signs, top bit set or not)
+				ty := []string{"int8", "int16", "int32", "int64", "int", "uint8", "uint16", "uint32", "uint64", "uint", "uintptr"}[g.n(0, 10, "rawtype")]
+				bits := map[string]uint{"int8": 8, "int16": 16, "int32": 32, "int64": 64, "int": 64, "uint8": 8, "uint16": 16, "uint32": 32, "uint64": 64, "uint": 64, "uintptr": 64}[ty]
+				pat := []uint64{0, 1, 0x7f, 0x80, 0xc8, 0xff, 0x7fff, 0x8000, 0xffff, 0x7fffffff, 0x80000000, 0xb2d05e00, 0xffffffff, 1 << 63, ^uint64(0), rapid.Uint64().Draw(g.t, "rawbits"), 0xc8c8c8c8c8c8c8c8, 0x8080808080808080, 0xfedcba9876543210, 0xf0f0f0f0f0f0f0f0}[g.n(0, 19, "rawpat")]
+				if bits < 64 {
+					pat &= 1<<bits - 1
+				}
+				r := &pval{kind: "raw", gtype: ty, u: pat}
+				if ty[0] == 'i' { // sign-extend from the type's width
+					r.i = int64(pat<<(64-bits)) >> (64 - bits)
+				}
+				v.items = append(v.items, r)
+				continue
+			}
 			v.items = append(v.items, g.value(depth+1))
 		}
 		return v
@@ -127,6 +144,11 @@ func goExpr(v *pval) string {
 		return "py.Str(" + goBytesLit(v.b) + ")"
 	case "bytes":
 		return "mkbytes(" + goBytesLit(v.b) + ")"
+	case "raw":
+		if v.gtype[0] == 'i' {
+			return fmt.Sprintf("rt(%s(%d))", v.gtype, v.i)
+		}
+		return fmt.Sprintf("rt(%s(%d))", v.gtype, v.u)
 	default:
 		var it []string
 		for _, x := range v.items {
@@ -152,6 +174,11 @@ func pyExpr(v *pval) string {
 		return "bytes.fromhex('" + hex.EncodeToString(v.b) + "').decode('utf-8')"
 	case "bytes":
 		return "bytes.fromhex('" + hex.EncodeToString(v.b) + "')"
+	case "raw":
+		if v.gtype[0] == 'i' {
+			return fmt.Sprintf("(%d)", v.i)
+		}
+		return fmt.Sprintf("%d", v.u)
 	default:
 		var it []string
 		for _, x := range v.items {
@@ -180,6 +207,9 @@ var _ = pymath.Sqrt
 var _ unsafe.Pointer
 
 func fbits(b uint64) float64 { return *(*float64)(unsafe.Pointer(&b)) }
+
+//go:noinline
+func rt[T any](v T) T { return v } // makes a native operand a run-time value
 
 // goplus/lib v0.3.1 ships no bytes constructor (py/bytes.go is commented out): bound here directly
 //
@@ -425,7 +455,9 @@ func TestC19Programs(t *testing.T) {
 		}
 		dir := filepath.Join(tc.Work, fmt.Sprintf("c19-%d", seq))
 		os.RemoveAll(dir)
-		defer os.RemoveAll(dir)
+		if true {
+			defer os.RemoveAll(dir)
+		}
 		files["oracle.py"] = pyPrelude + "\n" + pyMain.String()
 		if err := progkit.WriteModule(dir, files); err != nil {
 			t.Fatalf("VERIF-INFRA %v", err)
